@@ -81,6 +81,7 @@ func inspectNoLit(n ast.Node, fn func(ast.Node) bool) {
 			return false
 		}
 		if _, ok := x.(*ast.FuncLit); ok {
+			fn(x) // the literal itself is visible, its body is not
 			return false
 		}
 		return fn(x)
